@@ -37,8 +37,7 @@ def run(ctx):
         hs.append([["Put", 1, 1], ["Put", 2, 1], ["Put", 3, 1], ["IterCreate", 1, 0], ["IterCreate", 2, 0], ["IterNext", 1], ["IterNext", 1],
                    ["Rm", 2], ["Rm", 3], ["Rm", 1], ["Put", 5, 2], ["IterNext", 2], ["Put", 7, 2], ["IterNext", 2], ["IterNext", 2], ["IterFree", 2],
                    ["IterNext", 1], ["IterNext", 1], ["IterNext", 1]] + closing([1, 2, 3, 5, 7], 2))
-        # the history of the repaired KF-C18-1 (an entry removed under a parked iterator is gone at once); on the trie it
-        # falls under KF-C18-2 and is left to that finding's reproducer
+        # the history of the repaired KF-C18-1 / KF-C18-2 (an entry removed under a parked iterator is gone at once)
         if True:
             hs.append([["Put", 1, 1], ["IterCreate", 1, 0], ["IterNext", 1], ["Rm", 1], ["Get", 1], ["Rm", 1], ["Count"], ["Put", 1, 2], ["Get", 1],
                        ["IterCreate", 2, 0], ["IterNext", 2], ["IterNext", 2], ["IterNext", 1]] + closing([1], 2))
@@ -64,7 +63,7 @@ def run(ctx):
                   "trie: inserting a key that splits the node an iterator is parked on moves the entry to a new node; the iterator then releases the wrong node and the inserted key disappears")
     ctx.cov["exhaustive"] = True
     ctx.assumptions += [
-        "steps falling under the recorded findings KF-C18-1..4 are left out of generated behaviours (harness --kf-skip); each finding has a directed reproducer",
+        "the findings KF-C18-1..4 are repaired: nothing is left out of generated behaviours (a harness switch per trigger family exists and is passed only while a finding of that implementation is recorded as known)",
         "iterators are not advanced again after they reported the end",
         "values are non-NULL; keys from the 8-key aliasing alphabet",
         "memory errors are observed by ASan/UBSan on the harness (an abort is a rejected history)",
